@@ -1,8 +1,60 @@
 package main
 
-import "golang.org/x/tools/go/ssa"
+// Buffered channels as ghost FIFOs: per element type, chBuf[ch][i] is the i-th value ever sent, chHead[ch] the number
+// of values received so far, chTail[ch] the number sent. Only non-blocking select with a single receive case plus
+// default, plain sends and plain receives are modelled. ASSUMED: a send never blocks (the buffer is never full) and
+// no other goroutine touches the channel during the call.
 
-// channels are modelled only as far as the cron controller needs (filled in later)
-func (fr *Frame) execSelect(x *ssa.Select, st *State) { unsupported("select statement") }
-func (fr *Frame) execSend(x *ssa.Send, st *State)     { unsupported("channel send") }
-func (fr *Frame) execRecv(x *ssa.UnOp, st *State)     { unsupported("channel receive") }
+import (
+	"go/types"
+
+	"golang.org/x/tools/go/ssa"
+)
+
+func (e *Engine) chanKeys(et types.Type) (buf, head, tail string) {
+	k := typeKey(et)
+	n := mangle(shortTypeName(et))
+	buf = e.declHeapT("CB|"+k, "CB_"+n, arraySort("Int", arraySort("Int", e.u.sortOf(et))), "A", et)
+	head = e.declHeap("CH|"+k, "CH_"+n, arraySort("Int", "Int"))
+	tail = e.declHeap("CT|"+k, "CT_"+n, arraySort("Int", "Int"))
+	return
+}
+
+func chanElem(T types.Type) types.Type {
+	return types.Unalias(T).Underlying().(*types.Chan).Elem()
+}
+
+func (fr *Frame) execSelect(x *ssa.Select, st *State) {
+	r := fr.run
+	if x.Blocking || len(x.States) != 1 || x.States[0].Dir != types.RecvOnly {
+		unsupported("select statement (only `select { case v := <-ch: ... default: }` is modelled)")
+	}
+	ch := fr.term(x.States[0].Chan)
+	et := chanElem(x.States[0].Chan.Type())
+	bk, hk, tk := r.eng.chanKeys(et)
+	B, H, T := r.heapGet(st, bk), r.heapGet(st, hk), r.heapGet(st, tk)
+	head, tail := sel(H, ch), sel(T, ch)
+	nonempty := r.def("chne", app("Bool", "<", head, tail))
+	v := r.def("chv", ite(nonempty, sel(sel(B, ch), head), r.eng.u.zeroOf(et)))
+	r.knownFacts(st, v, et)
+	r.heapSet(st, hk, ite(nonempty, store(H, ch, app("Int", "+", head, intLit(1))), H))
+	r.noteWrite(hk, ch.S)
+	r.noteAssume("channels are ghost FIFOs: sends never block, no concurrent access during a call")
+	fr.vals[x] = Tuple{r.def("chidx", ite(nonempty, intLit(0), intLit(-1))), nonempty, v}
+}
+
+func (fr *Frame) execSend(x *ssa.Send, st *State) {
+	r := fr.run
+	ch := fr.term(x.Chan)
+	et := chanElem(x.Chan.Type())
+	bk, _, tk := r.eng.chanKeys(et)
+	B, T := r.heapGet(st, bk), r.heapGet(st, tk)
+	tail := sel(T, ch)
+	r.heapSet(st, bk, store(B, ch, store(sel(B, ch), tail, fr.term(x.X))))
+	r.heapSet(st, tk, store(T, ch, app("Int", "+", tail, intLit(1))))
+	r.noteWrite(bk, ch.S)
+	r.noteWrite(tk, ch.S)
+	r.noteAssume("channels are ghost FIFOs: sends never block, no concurrent access during a call")
+}
+
+func (fr *Frame) execRecv(x *ssa.UnOp, st *State) { unsupported("blocking channel receive") }
